@@ -6,7 +6,98 @@ def job(name, run, q=1, th=16, tq=300, tth=3000, race=False, tiers=("quick", "th
                 race=race, tiers=list(tiers))
 
 
+
+T_PBT = "property-based testing (rapid v1.3.0 generators + shrinking) with small-scope exhaustive enumeration; "
+
+def P(title, level, rule, explanation, level_text, level_note, technique, jobs, **kw):
+    d = dict(title=title, level=level, rule=rule, explanation=explanation, level_text=level_text, level_note=level_note,
+             technique=technique, jobs=jobs)
+    d.update(kw)
+    return d
+
 PROPS = {
+    "C02": P("Retry budget and fallback exact", "exploration",
+        "cases = (node kind/style, budget N, exec failure sequence, fallback script): EXHAUSTIVE for N in 1..8 x all 2^(N+1) failure sequences x fallback{ok,err,passthrough} x every kind; "
+        "plus rapid-generated flows and gated batch scenarios (each item judged by the same model); non-trivial = N>=2 and at least one failed attempt; distinct = FNV-64 of scenario JSON",
+        "oracle: attempts == min(k,N) from the script alone; fallback exactly once iff all N failed, with the prep value and the error INSTANCE of attempt N-1; post/slot receives the fallback's outcome else the successful attempt's",
+        "exhaustive over the whole quantified single-node space (N<=8), generated search for flows and batch items",
+        "trusted: the 20-line retry/fallback model in c02_test.go; error identity by interface equality of distinct error tokens",
+        T_PBT + "oracle = reference model of retry/fallback over callback traces",
+        [job("main", "^TestC02$", q=4, th=16)]),
+    "C03": P("Flow routing follows the table", "exploration",
+        "cases = flow graphs + per-visit action scripts: EXHAUSTIVE for 2 nodes x 2 actions x entries{unconnected,nil,n0,n1} x start x cyclic scripts<=2 (quick) and the same for 3 nodes (thorough, 10.1M cases in 16 shards; quick samples it with stride 211); "
+        "rapid: <=12 leaves, <=3 nested flows, 5 prefix-sharing actions, overwrites, nil targets, repeated runs; rapid state-machine: connect/reconnect/run on one live flow; "
+        "non-trivial = path length>=3 and (cycle, or overwritten/nil connection present, or >=2nd run of the same object)",
+        "oracle: reference interpreter (table walk, last Connect wins, nil/missing ends the flow) - visit log, touched leaves, store path and Flow.Run result must all equal the model",
+        "exhaustive over the small-scope graph space named in the property, generated search beyond",
+        "trusted: the reference interpreter in wf.go (never calls flyt)",
+        T_PBT + "oracle = reference interpreter / model-based state machine",
+        [job("main", "^TestC03$", q=4, th=16, tth=3400)]),
+    "C04": P("Errors transparent, flows fail-stop", "fault_enumeration",
+        "rapid generates failure-free workflow scenarios (depth<=4); for each, EVERY event of its reference path (leaf visit x phase x attempt) is injected as the single failure in 4 error flavours (sentinel, %w-wrapped, pointer type, value type) plus 'all attempts fail'; "
+        "plus random multi-failure scripts; non-trivial = the failure ends the run at depth>=1 or is absorbed by retry/fallback",
+        "oracle (model-free, over the actual trace): err==nil iff every node run on the path ended with a successful post; the returned error matches (errors.Is, inner sentinel, errors.As to the same instance) the LAST callback of the trace; no callback after the failing node run",
+        "fault enumeration over every position of the executed path of each generated scenario",
+        "trusted: trace recorder; 'ending callback' is identified as the last callback whose returned error matches",
+        "fault-injection enumeration driven by rapid-generated scenarios with shrinking; oracle = errors.Is/As identity + fail-stop predicate over the callback trace",
+        [job("main", "^TestC04$", q=4, th=16)]),
+    "C05": P("Cancellation of nodes and flows", "fault_enumeration",
+        "rapid generates workflow scenarios (single nodes and nested flows, budgets 1..4, with/without retry waits); cancellation is injected before the run and inside EVERY callback of the cancellation-free reference run, as cancel() from inside the callback and as a context deadline falling mid-callback (virtual clock); "
+        "non-trivial = cancellation lands inside the run and suppresses at least one callback of the reference run",
+        "oracle: pre-done => no callback and errors.Is(err, ctx.Err()); after the cancellation instant no exec attempt and no prep starts; actual trace is a prefix of the reference; a strict prefix must return an error matching ctx.Err()",
+        "fault enumeration over all cancellation points of each generated scenario, in a synctest bubble (deterministic)",
+        "trusted: testing/synctest virtual time; each callback takes 1 virtual second",
+        "cancellation-point enumeration over rapid-generated scenarios in synctest bubbles; oracle = prefix-of-reference + ctx-error predicate",
+        [job("main", "^TestC05$", q=4, th=16)]),
+    "C06": P("Batch results positional; post once", "exploration",
+        "cases = gated batch scenarios (n items, c workers, prep payload form, per-item scripts, release schedule). EXHAUSTIVE over all completion orders (replay-based DFS over 'which parked exec next') for the (n,c) pairs listed in exhaustive_subspaces; rapid: n in 0..64, c in 0..16, 9 prep payload forms, gated random release orders and un-gated random virtual durations; "
+        "non-trivial = c>=2 and completion order differs from index order",
+        "oracle: post exactly once, entered with no exec in flight and all n started; items element-wise identical to prep's; len(results)==n; slot i == the outcome (value identity / error instance) of item i's own last callback",
+        "schedule enumeration: every completion order for n<=8,c<=4 (quick) and n=10,c=5 (thorough)",
+        "trusted: synctest quiescence = every started exec has reached its gate",
+        "schedule-enumerating property test in synctest bubbles + rapid generation; oracle = positional slot/item identity predicate",
+        [job("main", "^TestC06$", q=4, th=16)]),
+    "C07": P("Batch: every item once, per-item retry/fallback", "exploration",
+        "cases = batch scenarios with independent per-item scripts: EXHAUSTIVE script assignments for n<=2 (quick) / n<=3 (thorough), budget<=2, c in 0..3, fallback on/off, two release orders; rapid: n<=32, budget<=4, c<=8, random release orders and un-gated timed runs; "
+        "non-trivial = >=2 distinct item scripts, >=1 failing item, c>=2",
+        "oracle: per item the C02 model on its own script (attempt count, numbering, fallback count/arguments, slot) and a differential run of the same script as a single NewNode; total exec calls == sum of model attempts",
+        "generated search with exhaustive small scope",
+        "trusted: per-item model; item identity decoded from the token each item carries",
+        T_PBT + "oracle = per-item reference model + differential against single-node run",
+        [job("main", "^TestC07$", q=4, th=16)]),
+    "C08": P("Concurrency limit hard and usable", "exploration",
+        "cases = gated batches for every c in 0..16 with n=4c+8, all release orders for (n,c) in {(5,2),(6,3),(7,3),(7,4)}, rapid batches (n<=4c+8) and direct WorkerPool scenarios (sizes -1..16, 1..4 submitters, up to 3 Wait rounds), gated or with random virtual durations, plus c-way barrier scenarios; "
+        "non-trivial = n>c>=2 (queue refills) / tasks>3*workers or multiple submitters/rounds",
+        "oracle at EVERY quiescent point: in-flight == min(c, unfinished) (upper bound and usability in one equation; c==0: exactly one, in item order); atomic high-water mark <= c; c mutually waiting items must complete (else the bubble's deadlock panic is the violation)",
+        "schedule exploration with an invariant evaluated at every quiescent point",
+        "trusted: synctest.Wait() returns only when every goroutine of the case is durably blocked",
+        "gated schedule exploration in synctest bubbles; oracle = in-flight equation at quiescent points + high-water mark + deadlock detection",
+        [job("main", "^TestC08$", q=4, th=16)]),
+    "C09": P("Stop-on-error; no fake successes", "exploration",
+        "cases = gated batches: EVERY position of the first failing item for n<=8 (quick)/16 (thorough), c in 0..4, stop and continue mode, failing item released while the other in-flight items stay parked, two release orders of the rest; all release orders for 4 small cases; rapid: second failing item, budgets 1..3, fallbacks that rescue or not; "
+        "non-trivial = stop mode and at least one item after the failing one",
+        "oracle: (a) stop mode: c<=1 no exec start after the failing callback; c>=2 no new item start after the quiescent point that follows the failing release; (b) every mode: slot i is the real outcome of an execution of item i that happened, or IsError()",
+        "enumeration of failing positions x schedules under the quantifier's own gating restriction",
+        "trusted: gating makes 'the failure has been handled' the next quiescent point",
+        "gated schedule enumeration in synctest bubbles + rapid; oracle = start-after-failure predicate and slot-genuineness predicate",
+        [job("main", "^TestC09$", q=4, th=16)]),
+    "C10": P("Flow used as a node == flattened machine", "exploration",
+        "cases = rapid-generated hierarchical flows (depth<=4; structured generator that connects (inner flow, action) pairs with high probability + two random generators), inner flows ending by unconnected action, nil connection or error, shared inner flows, repeated runs; "
+        "non-trivial = depth>=2 and the parent follows a non-default connection on an inner flow's final action",
+        "oracle: differential - the harness flattens the hierarchy (call-path states, successor via inner table -> exit -> parent table -> entry) into a REAL single-level flyt.Flow over fresh wrappers sharing the leaves' behaviours, runs both and requires identical callback sequence, store contents, success/failure; every inner callback must see the outermost store pointer; the reference interpreter must agree too",
+        "differential generated search",
+        "trusted: flatten() in c10_test.go",
+        "differential property-based testing (nested vs flattened real flows) with rapid shrinking",
+        [job("main", "^TestC10$", q=4, th=16)]),
+    "C11": P("Cancelling a batch", "fault_enumeration",
+        "cancellation injected before the run and from inside the exec of EVERY (item, attempt) for n<=7 (quick)/16 (thorough), c in 0..4, both modes, budgets 1..3, wait in {0,1h}; other in-flight items parked; rapid on top (random failing items, fallbacks, prep forms); "
+        "non-trivial = cancellation strictly inside the run with >=1 item not yet started",
+        "oracle: the run returns (a hang = bubble deadlock panic); no new item and no new retry attempt starts after the cancellation's quiescent point; then errors.Is(err, ctx.Err()) or post called exactly once with IsError() in every never-executed slot",
+        "fault enumeration over cancellation points in a deterministic bubble",
+        "trusted: gating; virtual clock",
+        "cancellation-point enumeration in synctest bubbles + rapid; oracle = no-start-after-cancel + slot predicate + termination",
+        [job("main", "^TestC11$", q=4, th=16)]),
+
     "C01": dict(
         title="Node lifecycle",
         level="exploration",
